@@ -41,7 +41,7 @@ def clog2_task(ctx):
             ctx.oblige(f"clog2/post#{i}:2^r>=num", o.st.pc, z3.And(r >= 0, pow2(r) >= num), "post")
             ctx.oblige(f"clog2/post#{i}:2^(r-1)<num", o.st.pc, z3.Implies(r > 0, pow2(r - 1) < num), "post")
     ctx.oblige("clog2/cover", [], z3.BoolVal(len(outs) >= 2), "cover")
-    return {"function": f"{FU}::clog2", "sha256": sha, "lines": [fn.lineno, fn.end_lineno], "variants": ["num: any int"]}
+    return {"function": f"{FU}::clog2", "sha256": sha, "lines": engine.abs_lines(fn), "variants": ["num: any int"]}
 
 
 TASKS = {"C13/clog2": clog2_task}
